@@ -363,8 +363,8 @@ class Machine:
             p = self.val(a[0], 'l', env)
             # our va_list: pointer to a cursor cell holding an index into self.valists
             self.valists = getattr(self, 'valists', [])
-            self.valists.append([list(varargs), 0])
-            self.store(p, 8, len(self.valists) - 1)
+            self.valists.append(list(varargs))
+            self.store(p, 8, len(self.valists) - 1); self.store(p + 8, 8, 0)
         else:
             raise ILError('unknown instruction %s' % ' '.join(t))
 
@@ -417,6 +417,16 @@ class Machine:
             v = self.load(p, n)
             if signed: v = sx(v, 8 * n)
             return v & MASK
+        if op == 'vaarg':
+            # the va_list storage holds (id of the argument list, position): copying the storage (va_copy) gives an independent cursor
+            p = V(0, 'l'); idx = self.load(p, 8); pos = self.load(p + 8, 8)
+            if idx >= len(getattr(self, 'valists', [])): raise Trap('va_arg on a va_list that was not started')
+            lst = self.valists[idx]
+            if pos >= len(lst): raise Trap('va_arg past the last argument')
+            c, v = lst[pos]; self.store(p + 8, 8, pos + 1)
+            if (c in ('s', 'd')) != (cls in ('s', 'd')): raise Trap('va_arg class %s for an argument passed as %s' % (cls, c))
+            if cls in ('w', 'l') and c in ('w', 'l') and cls != c and cls == 'l': raise Trap('va_arg reads 64 bits of an argument passed as 32 bits')
+            return v & MASK if isinstance(v, int) else v
         if cls in ('s', 'd'):
             rnd = f32 if cls == 's' else (lambda x: x)
             if op in ('add', 'sub', 'mul', 'div'):
@@ -463,13 +473,6 @@ class Machine:
             v = self.val(a[0], 'w', env) & ((1 << bits) - 1)
             if op[3] == 's': v = sx(v, bits)
             return v & MASK
-        if op == 'vaarg':
-            p = V(0, 'l'); idx = self.load(p, 8)
-            lst = self.valists[idx]
-            if lst[1] >= len(lst[0]): raise Trap('va_arg past the last argument')
-            c, v = lst[0][lst[1]]; lst[1] += 1
-            if (c in ('s', 'd')) != (cls in ('s', 'd')): raise Trap('va_arg class %s for an argument passed as %s' % (cls, c))
-            return v & MASK if isinstance(v, int) else v
         x = V(0)
         if op == 'neg': return (-x) & MASK
         y = self.val(a[1], 'w' if op in ('shl', 'shr', 'sar') else cls, env)
